@@ -90,9 +90,30 @@ type genProvider struct {
 	watcher   confmap.WatcherFunc
 	shutdowns int
 	plan      []string // per generation: "ok", "badcfg", "failstart", "failstop"
+	side      map[string]int // Shutdown calls of the other registered providers, by scheme
 }
 
-func (p *genProvider) Retrieve(_ context.Context, _ string, w confmap.WatcherFunc) (*confmap.Retrieved, error) {
+// sideProvider: "the configuration providers" are ALL registered ones - "aux" is reached only through a ${aux:...}
+// reference inside the configuration, "idle" is registered and never used
+type sideProvider struct {
+	scheme string
+	gp     *genProvider
+}
+
+func (p *sideProvider) Retrieve(context.Context, string, confmap.WatcherFunc) (*confmap.Retrieved, error) {
+	return confmap.NewRetrieved("none")
+}
+func (p *sideProvider) Scheme() string { return p.scheme }
+func (p *sideProvider) Shutdown(context.Context) error {
+	p.gp.side[p.scheme]++
+	ev("provider %s shutdown", p.scheme)
+	return nil
+}
+
+func (p *genProvider) Retrieve(_ context.Context, uri string, w confmap.WatcherFunc) (*confmap.Retrieved, error) {
+	if uri == "gen:y" { // a second location with the same scheme: an overlay that changes nothing
+		return confmap.NewRetrievedFromYAML([]byte("{}"))
+	}
 	p.gen++
 	p.watcher = w
 	kind := "ok"
@@ -110,7 +131,7 @@ func (p *genProvider) Retrieve(_ context.Context, _ string, w confmap.WatcherFun
 receivers: {vv: %s}
 exporters: {vv: %s}
 service:
-  telemetry: {metrics: {level: none}, logs: {level: error, output_paths: [/dev/null], error_output_paths: [/dev/null]}}
+  telemetry: {metrics: {level: "${aux:lvl}"}, logs: {level: error, output_paths: [/dev/null], error_output_paths: [/dev/null]}}
   pipelines: {traces: {receivers: [vv], exporters: [vv]}}%s
 `, recv, exp, extra)
 	return confmap.NewRetrievedFromYAML([]byte(y))
@@ -135,13 +156,17 @@ type result struct {
 func c20body(hist []string, plan []string, res *result, prov **genProvider) func() {
 	return func() {
 		evlog = nil
-		gp := &genProvider{plan: plan}
+		gp := &genProvider{plan: plan, side: map[string]int{}}
 		*prov = gp
+		sideF := func(scheme string) confmap.ProviderFactory {
+			return confmap.NewProviderFactory(func(confmap.ProviderSettings) confmap.Provider { return &sideProvider{scheme, gp} })
+		}
 		col, err := NewCollector(CollectorSettings{
 			Factories: vfactories, SkipSettingGRPCLogger: true,
 			ConfigProviderSettings: ConfigProviderSettings{ResolverSettings: confmap.ResolverSettings{
-				URIs:              []string{"gen:x"},
-				ProviderFactories: []confmap.ProviderFactory{confmap.NewProviderFactory(func(confmap.ProviderSettings) confmap.Provider { return gp })},
+				URIs: []string{"gen:x", "gen:y"},
+				ProviderFactories: []confmap.ProviderFactory{confmap.NewProviderFactory(func(confmap.ProviderSettings) confmap.Provider { return gp }),
+					sideF("aux"), sideF("idle")},
 			}},
 		})
 		if err != nil {
@@ -268,6 +293,12 @@ func checkLog(res result, gp *genProvider) string {
 	}
 	if res.runErr == "" && gp.shutdowns != 1 {
 		return fmt.Sprintf("provider shut down %d times", gp.shutdowns)
+	}
+	for _, sch := range []string{"aux", "idle"} {
+		if res.runErr == "" && gp.side[sch] != 1 {
+			return fmt.Sprintf("provider %q (registered; %s) shut down %d times", sch,
+				map[string]string{"aux": "used through a ${aux:...} reference", "idle": "never used"}[sch], gp.side[sch])
+		}
 	}
 	return ""
 }
